@@ -11,3 +11,4 @@ import Gossamer.Props.C26
 #print axioms Gossamer.C26.C26_config_own_fork_history
 #print axioms Gossamer.C26.C26_prompt_history
 #print axioms Gossamer.C26.C26_old_loop_diverges
+#print axioms Gossamer.C26.C26_first_slot_own_fork
